@@ -106,6 +106,8 @@ class Ctx:
 
     def ob(self, name, kind, ok, backend="", time_s=0.0, detail="", cex=None, native=None):
         """Record an obligation decided by the caller: ok True/False/None(undecided)."""
+        if ok is not None:
+            ok = bool(ok)
         status = "proved" if ok is True else ("failed" if ok is False else "undecided")
         return self.add(Ob(name, kind, status, backend, time_s, detail, cex, native))
 
